@@ -631,6 +631,11 @@ COMBINATORS = {
     "std::result::Result::<T, E>::is_ok_and":   (RES, {"Ok": ("call", 1, True, None), "Err": ("const", "false")}),
     "std::result::Result::<T, E>::is_err_and":  (RES, {"Ok": ("const", "false"), "Err": ("call", 1, True, None)}),
     "core::bool::<impl bool>::then":            ("bool", {"true": ("call", 1, False, (OPT, "Some")), "false": ("unit", OPT, "None")}),
+    # predicates on `&self`
+    "std::option::Option::<T>::is_some":        (OPT, {"Some": ("const", "true"), "None": ("const", "false")}, "byref"),
+    "std::option::Option::<T>::is_none":        (OPT, {"Some": ("const", "false"), "None": ("const", "true")}, "byref"),
+    "std::result::Result::<T, E>::is_ok":       (RES, {"Ok": ("const", "true"), "Err": ("const", "false")}, "byref"),
+    "std::result::Result::<T, E>::is_err":      (RES, {"Ok": ("const", "false"), "Err": ("const", "true")}, "byref"),
 }
 
 
@@ -652,7 +657,8 @@ def desugar_combinators(raw, originals, stats=None, owner=None):
         spec = COMBINATORS.get(d)
         if spec is None:
             continue
-        adt, arms = spec
+        adt, arms = spec[0], spec[1]
+        byref = len(spec) > 2 and spec[2] == "byref"
         # every closure operand must be a closure written in place or a function item
         callees = {}
         ok = True
@@ -738,7 +744,7 @@ def desugar_combinators(raw, originals, stats=None, owner=None):
             U = len(blocks)
             blocks.append(blk([], {"l": ln, "k": "unreachable"}))
             names = list(arms.keys())
-            b["stmts"].append(asg([dsc, []], {"k": "disc", "p": [sv, []], "ty": adt, "adt": adt, "variants": [[n, str(_VIDX[(adt, n)])] for n in sorted(names, key=lambda n: _VIDX[(adt, n)])]}))
+            b["stmts"].append(asg([dsc, []], {"k": "disc", "p": [sv, ["*"] if byref else []], "ty": adt, "adt": adt, "variants": [[n, str(_VIDX[(adt, n)])] for n in sorted(names, key=lambda n: _VIDX[(adt, n)])]}))
             b["term"] = {"l": ln, "k": "switch", "discr": {"k": "move", "p": [dsc, []]}, "dty": "isize", "targets": [[str(_VIDX[(adt, n)]), arm_entry[n]] for n in sorted(names, key=lambda n: _VIDX[(adt, n)])], "otherwise": U, "desugared": d}
         changed = True
     return changed
